@@ -5,7 +5,8 @@ import Pkgcore.Proofs.C07
 Property theorems only (helper lemmas: `Pkgcore/Proofs/C07.lean`).  `eqv` is `==`, `hashKey` what `__hash__`
 hashes, `mtch` is `match` (`Model/C07.lean`, mirroring the classes after the `fix:` commits); `SameMatch`, `hkEq`,
 `lookup` are the notions of the property (`Spec/C07.lean`).  `wf` only says that a version restriction holds an
-operator set of `_convert_str2op` (generated table).
+operator set of `_convert_str2op` (generated table) and that the version of an atom is one `isvalid_version_re`
+accepts.  Atom equality and hashing are the C02 model (`atom.__cmp__(other) == 0`, the canonical tuple).
 -/
 namespace Pkgcore.C07
 open Pkgcore.C07.Spec
@@ -16,26 +17,38 @@ theorem eq_implies_same_match (a b : Restr) (ha : wf a = true) (hb : wf b = true
     SameMatch a b :=
   fun env x => eqv_match env a b ha hb h x
 
+/-- an atom `[op]cat/pkg[-ver][use]` for the examples -/
+def exAtom (cat pkg : String) (vop : Option (Pkgcore.C02.Op × Pkgcore.C01.Ver × Str)) (use : Option (List String)) :
+    Pkgcore.C02.Atom :=
+  { cat := cat.toList, pkg := pkg.toList, vop := vop, blocks := false, strong := false, negate := false,
+    slot := none, subslot := none, slotOp := none, use := use.map (·.map String.toList), repo := none }
+
 /-- not vacuous: a negated `<` inside a package restriction inside an any-of, against `>=`; a DepSet against a
-permutation with a duplicate -/
+permutation with a duplicate, one atom spelled differently (`=a/b-1.0` / `=a/b-1.00-r0`) -/
 example :
     let v : Pkgcore.C01.Ver := ⟨[['1'], ['0']], none, []⟩
+    let v' : Pkgcore.C01.Ver := ⟨[['1'], ['0', '0']], none, []⟩
+    let ab := exAtom "a" "b" (some (.eq, v, [])) none
+    let ab' := exAtom "a" "b" (some (.eq, v', ['0'])) none
+    let cd := exAtom "c" "d" none none
+    let cd' := exAtom "c" "d" none none
     let a := Restr.bool .or 2 false [.pkgRestr 1 false [["fullver".toList]] false (.version [-1] false true v (some ['0'])),
-                                     .depset [.atom ["a/b".toList] false, .atom ["c/d".toList] true]]
+                                     .depset [.atom ab, .atom cd]]
     let b := Restr.bool .or 2 false [.pkgRestr 1 false [["fullver".toList]] false (.version [0, 1] false false v (some [])),
-                                     .depset [.atom ["c/d".toList] false, .atom ["a/b".toList] false, .atom ["c/d".toList] false]]
+                                     .depset [.atom cd', .atom ab', .atom cd]]
     wf a = true ∧ wf b = true ∧ eqv a b = true := by decide
 
 /-- **equal restrictions have equal hashes**: their hash keys agree component-wise (as sets for frozensets), hence
 so does every hash function that is a function of the key up to that equivalence — CPython's is. -/
-theorem eq_implies_same_hash (a b : Restr) (h : eqv a b = true) :
+theorem eq_implies_same_hash (a b : Restr) (ha : wf a = true) (hb : wf b = true) (h : eqv a b = true) :
     hkEq (hashKey a) (hashKey b) = true ∧
     ∀ H : HK → Int, (∀ k k', hkEq k k' = true → H k = H k') → H (hashKey a) = H (hashKey b) :=
-  ⟨eqv_hash a b h, fun _ hH => hH _ _ (eqv_hash a b h)⟩
+  ⟨eqv_hash a b ha hb h, fun _ hH => hH _ _ (eqv_hash a b ha hb h)⟩
 
 example : ∃ H : HK → Int, ∀ k k', hkEq k k' = true → H k = H k' := ⟨fun _ => 0, fun _ _ _ => rfl⟩
 
-/-- the four repaired equalities, as facts about the model:
+/-- the repaired equalities / hashes, as facts about the model (the last one: a version glob's hash follows the
+integer value of its revision, like its equality):
 a negated `~` is not equal to the plain one; `<` negated equals `>=` (and now hashes alike); a restriction
 without revision is not equal to one with revision 0 although `None == Revision("0")`; `_UseDepDefaultContainment`
 compares `if_missing`. -/
@@ -43,12 +56,33 @@ theorem repaired_equalities (v : Pkgcore.C01.Ver) (r : Pkgcore.C01.Rev) (fl : Li
     eqv (.version [0] true true v r) (.version [0] true false v r) = false ∧
     eqv (.version [-1] false true v r) (.version [0, 1] false false v r) = true ∧
     eqv (.version [0] false false v none) (.version [0] false false v (some ['0'])) = false ∧
-    eqv (.useDefault true fl n) (.useDefault false fl n) = false := by
-  refine ⟨?_, ?_, ?_, ?_⟩
+    eqv (.useDefault true fl n) (.useDefault false fl n) = false ∧
+    (eqv (.verGlob v (some ['1'])) (.verGlob v (some ['0', '1'])) = true ∧
+      hashKey (.verGlob v (some ['1'])) = hashKey (.verGlob v (some ['0', '1']))) := by
+  refine ⟨?_, ?_, ?_, ?_, ?_, ?_⟩
   · simp [eqv, convertOps]
   · simp [eqv, convertOps]
   · simp [eqv]
   · simp [eqv]
+  · simp [eqv, revInt, Pkgcore.C01.natOfDigits]
+  · simp [hashKey, revInt, Pkgcore.C01.natOfDigits]
+
+/-- atoms (C02's equality): a strong blocker is not a weak one, spelling of the version and order of the USE deps do
+not matter — and such equal atoms are interchangeable by the two theorems above -/
+theorem atom_equalities :
+    let v : Pkgcore.C01.Ver := ⟨[['1'], ['0']], none, []⟩
+    let v' : Pkgcore.C01.Ver := ⟨[['1'], ['0', '0']], none, []⟩
+    eqv (.atom { exAtom "a" "b" none none with blocks := true, strong := true })
+        (.atom { exAtom "a" "b" none none with blocks := true }) = false ∧
+    eqv (.atom (exAtom "a" "b" (some (.eq, v, [])) none)) (.atom (exAtom "a" "b" (some (.eq, v', ['0'])) none)) = true ∧
+    eqv (.atom (exAtom "a" "b" none (some ["x", "y"]))) (.atom (exAtom "a" "b" none (some ["y", "x"]))) = true := by
+  refine ⟨by decide, by decide, ?_⟩
+  simp only [eqv, beq_iff_eq]
+  rw [atomEq_iff_canon _ _ (by simp [exAtom, Pkgcore.C02.Spec.Atom.WF, Pkgcore.C02.Atom.vr, Pkgcore.C02.Spec.vrWF])
+    (by simp [exAtom, Pkgcore.C02.Spec.Atom.WF, Pkgcore.C02.Atom.vr, Pkgcore.C02.Spec.vrWF])]
+  simp only [Pkgcore.C02.Spec.atomCanon, exAtom, Pkgcore.C02.Atom.useAttr, Option.map_some, List.map]
+  rw [Pkgcore.C02.sortUse_perm _ _ (List.Perm.swap _ _ [])]
+  rfl
 
 /-- **a restriction-keyed cache never answers with a result computed for a different query.**
 `cache` is a Python dict whose entries were all stored as `compute key` (the invariant of `caching_repo.match` and of
@@ -65,9 +99,9 @@ theorem cache_lookup_sound {V : Type} (H : HK → Int) (compute : Restr → V) (
 
 /-- and it does answer when an equal key is stored (this is where equal hashes are needed) -/
 theorem cache_hit_complete {V : Type} (H : HK → Int) (hH : ∀ k k', hkEq k k' = true → H k = H k')
-    (cache : List (Restr × V)) (k k' : Restr) (v : V) (hm : (k', v) ∈ cache) (he : eqv k' k = true) :
-    (lookup H cache k).isSome = true :=
-  lookup_hit H cache k k' v hm he (hH _ _ (eqv_hash k' k he))
+    (cache : List (Restr × V)) (k k' : Restr) (v : V) (hm : (k', v) ∈ cache) (hk' : wf k' = true) (hk : wf k = true)
+    (he : eqv k' k = true) : (lookup H cache k).isSome = true :=
+  lookup_hit H cache k k' v hm he (hH _ _ (eqv_hash k' k hk' hk he))
 
 /-- the instance for `caching_repo`: the cached answer for `k` is the list of packages `k` matches -/
 theorem caching_repo_sound (env : Env) (H : HK → Int) (pkgs : List Value) (cache : List (Restr × List Value))
@@ -77,10 +111,10 @@ theorem caching_repo_sound (env : Env) (H : HK → Int) (pkgs : List Value) (cac
   cache_lookup_sound H (fun r => pkgs.filter (fun x => mtch env r x)) cache k v
     (fun a b hab => by simp only [hab env]) hinv hwf hk h
 
-/-- not vacuous: a cache holding the answer for `a/b[x,y]`, queried with `a/b[y,x]` (same compared attributes) -/
+/-- not vacuous: a cache holding the answer for `=a/b-1.0`, queried with `=a/b-1.00-r0` -/
 example :
-    let k' := Restr.atom ["a/b".toList, "x,y".toList] false
-    let k := Restr.atom ["a/b".toList, "x,y".toList] true
+    let k' := Restr.atom (exAtom "a" "b" (some (.eq, ⟨[['1'], ['0']], none, []⟩, [])) none)
+    let k := Restr.atom (exAtom "a" "b" (some (.eq, ⟨[['1'], ['0', '0']], none, []⟩, ['0'])) none)
     lookup (fun _ => 7) [(Restr.obj 3, 10), (k', 11)] k = some 11 := by
   decide
 
